@@ -93,9 +93,15 @@ def gen_lstsq(rng, m=None, n=None):
     ctor_rcond = rng.choice(["default", "default", None, 1e-6, 0.2])
     cutoff = rng.choice([None, None, None] + list(range(1, k + 1)) + [k + 2])
     ctor_cutoff = rng.choice([None, None, None] + list(range(1, k + 1)))
+    # earlier calls on the same SVD object with other settings: the judged call must not depend on them
+    pre = []
+    if rng.random() < 0.35:
+        for _ in range(rng.choice([1, 1, 2])):
+            pr = rng.choice(RCONDS + [0.3, 0.05])
+            pre.append([None if pr is None else float(pr).hex(), rng.choice([None, None] + list(range(1, k + 1)))])
     return {"kind": "lstsq", "mk": kind, "A": hx(A), "b": hx(b), "rcond": None if rcond is None else float(rcond).hex(),
             "ctor_rcond": ctor_rcond if ctor_rcond in ("default", None) else float(ctor_rcond).hex(),
-            "cutoff": cutoff, "ctor_cutoff": ctor_cutoff, "exact_s": exact_s, "shape": [m, n]}
+            "cutoff": cutoff, "ctor_cutoff": ctor_cutoff, "exact_s": exact_s, "shape": [m, n], "pre_calls": pre}
 
 
 def gen_problem(rng, kind, n=None, m=None):
